@@ -1,6 +1,7 @@
 package main
 
 import (
+	"golang.org/x/tools/go/ssa"
 	"encoding/json"
 	"fmt"
 	"os"
@@ -23,6 +24,8 @@ type funcPrint struct {
 	Params  []string `json:"params"`
 	Results []string `json:"results"`
 	Calls   []string `json:"calls"`
+	Loops   int      `json:"loops"`
+	Nest    string   `json:"nest"`
 }
 
 type funcBaseline map[string]map[string]*funcPrint // package dir -> raw key -> print
@@ -61,7 +64,7 @@ func cmdFunctions(args []string) {
 			if strings.Contains(k, "$") {
 				continue
 			}
-			m[k] = &funcPrint{Params: s.params, Results: s.results, Calls: s.calls}
+			m[k] = &funcPrint{Params: s.params, Results: s.results, Calls: s.calls, Loops: s.loops, Nest: s.nest}
 		}
 		fb[dir] = m
 	}
@@ -272,6 +275,78 @@ func (rb *rebinding) apply(text string) string {
 		text = regexp.MustCompile(`\b`+regexp.QuoteMeta(from)+`\b`).ReplaceAllString(text, to)
 	}
 	return text
+}
+
+// rawKeyOf: package directory and declaration key ("(*T).M", "F") of a /repo function; function literals map to the
+// function they are written in.
+func rawKeyOf(fn *ssa.Function) (string, string, bool) {
+	for fn.Parent() != nil {
+		fn = fn.Parent()
+	}
+	if fn.Pkg == nil || fn.Pkg.Pkg == nil {
+		return "", "", false
+	}
+	path := fn.Pkg.Pkg.Path()
+	if path != modPath && !strings.HasPrefix(path, modPath+"/") {
+		return "", "", false
+	}
+	dir := strings.TrimPrefix(strings.TrimPrefix(path, modPath), "/")
+	name := funcName(fn) // saml.F, (*saml.T).M, (samlsp.T).M
+	if i := strings.Index(name, "#"); i > 0 {
+		name = name[:i] // init#1, init#2: the declared init functions
+	}
+	short := pkgShort(dir)
+	key := name
+	if strings.HasPrefix(name, "(") {
+		key = strings.Replace(name, short+".", "", 1)
+	} else {
+		key = strings.TrimPrefix(name, short+".")
+	}
+	return dir, key, true
+}
+
+// loopsNew: the function has more loops than the record of the unchanged tree knows of (or is not in that record): a
+// loop in it that no invariant - written or by construction - describes was not there when the proofs were made.
+func (e *Engine) loopsNew(fn *ssa.Function) bool {
+	dir, key, ok := rawKeyOf(fn)
+	if !ok || e.funcBase == nil || e.curSigs == nil {
+		return false
+	}
+	cur := e.curSigs[dir][key]
+	if cur == nil {
+		return false
+	}
+	if nk, renamed := e.renamedNew[contractKey(dir, key)]; renamed {
+		_ = nk
+	}
+	old := e.funcBase[dir][key]
+	if old == nil {
+		// renamed functions keep the record of their old name
+		for o, n := range e.renamedKey {
+			if n == contractKey(dir, key) {
+				for k2, fp := range e.funcBase[dir] {
+					if contractKey(dir, k2) == o {
+						old = fp
+					}
+				}
+			}
+		}
+	}
+	if old == nil {
+		return cur.loops > 0
+	}
+	return cur.loops > old.Loops || cur.nest != old.Nest
+}
+
+// loopsRestructured: the nesting of the function's loops differs from the record - invariants bound to loops by ordinal
+// no longer know which loop they are about.
+func (e *Engine) loopsRestructured(fn *ssa.Function) bool {
+	dir, key, ok := rawKeyOf(fn)
+	if !ok || e.funcBase == nil || e.curSigs == nil {
+		return false
+	}
+	cur, old := e.curSigs[dir][key], e.funcBase[dir][key]
+	return cur != nil && old != nil && cur.nest != old.Nest
 }
 
 func bareName(raw string) string {
